@@ -297,7 +297,35 @@ class World:
             o["union"] = [{"p": p, "r": [v.abs_triple(t) for t in ds.triples(v.triple(p))]} for p in self.PATS]
             if self.cfg.get("default_union"):
                 o["ulen"] = len(ds)
+            if self.cfg.get("paths"):
+                # patterns whose predicate is a property path: asked of the dataset itself (g = D: its default view) and of each view
+                up = []
+                for pth in self.cfg["paths"]:
+                    po = self.path_obj(pth)
+                    up.append({"g": "D", "path": pth, "r": [[v.abs(s_), v.abs(o_)] for s_, _, o_ in ds.triples((None, po, None))]})
+                    for n in self.cfg["names"]:
+                        if n != "D":
+                            up.append({"g": n, "path": pth, "r": [[v.abs(s_), v.abs(o_)] for s_, _, o_ in self.view(n).triples((None, po, None))]})
+                o["upath"] = up
         return o
+
+    def path_obj(self, p):
+        from rdflib.paths import AlternativePath, InvPath, MulPath, NegatedPath, SequencePath
+        op = p["op"]
+        if op == "iri":
+            return self.v.term(p["iri"])
+        if op == "inv":
+            return InvPath(self.path_obj(p["arg"]))
+        if op == "seq":
+            return SequencePath(*[self.path_obj(x) for x in p["args"]])
+        if op == "alt":
+            return AlternativePath(*[self.path_obj(x) for x in p["args"]])
+        if op in ("star", "plus", "opt"):
+            return MulPath(self.path_obj(p["arg"]), {"star": "*", "plus": "+", "opt": "?"}[op])
+        if op == "neg":
+            parts = [self.v.term(x) for x in p["fwd"]]
+            return NegatedPath(parts[0] if len(parts) == 1 else AlternativePath(*parts))
+        raise ValueError(op)
 
 
 def replay(cfg, events, tid=0):
